@@ -20,7 +20,7 @@ def sector(x, y):
 def run(run):
     rng = run.rng
     run.do_ties()
-    quick = run.tier == "quick"
+    quick = run.quick
     i0, _ = core.both(run, ["face_vertices"], "runtime-constants")
     face = [tuple(geo.fx(x) for x in p.split(",")) for p in i0[0][3:].split(";")]
     n5 = len(face)
